@@ -338,6 +338,9 @@ func nontrivial(c *Case) bool {
 }
 
 func outcomeLabels(c *Case, o observation, fails []failure, into map[string]int64) {
+	for _, f := range fails {
+		into["deviation:"+f.Class]++
+	}
 	switch {
 	case o.Panic != "":
 		into["panic"]++
@@ -372,9 +375,6 @@ func outcomeLabels(c *Case, o observation, fails []failure, into map[string]int6
 		into["query=pattern+base"]++
 	default:
 		into["query=static-one-level"]++
-	}
-	for _, f := range fails {
-		into["deviation:"+f.Class]++
 	}
 }
 
